@@ -75,7 +75,13 @@ Section Simulator.
         match last_row segs with
         | None => (s, RaisedIndex)
         | Some (t, yl) =>
-            let y := yovr yl o in
+            let base := if f_updvar_keeps fx
+                        then match s_shift s with
+                             | Some sh => if Qeq_bool sh t then s_y0 s else yl
+                             | None => yl
+                             end
+                        else yl in
+            let y := yovr base o in
             (mkSim y (s_vars s) (s_pars s) (Some t) (s_errs s) (integ_init Y y) (s_mp s), Done)
         end
     end.
